@@ -1524,6 +1524,8 @@ UNITS.append(U_LIT)
 # =====================================================================================================================
 # C08 / C11: the object and module handlers -- call_object, lookup, module_entry, load_self_export, export_special, ret_mod
 OBJ_SPEC = r"""
+// Rc::new(RefCell::new(Stack::new())): a call stack of its own -- with no frame of the running program on it
+#[verifier::external_body] pub fn fresh_call_stack() -> (r: StackRef) ensures frame_labels(&r).len() == 0 { unimplemented!() }
 // an object: its variables (the cells its methods captured: unit c08_object_fields) -- a handle of the same mapping
 pub struct ObjV { pub object_variables: Caps }
 #[verifier::external_body] pub fn clone_caps(c: &Caps) -> (r: Caps) ensures caps_view(&r) == caps_view(c) { unimplemented!() }
@@ -1596,6 +1598,7 @@ def build_object_handlers(repo):
         Rule("R1", "variable . clone ( )", "clone_handle ( & variable )", why="handle clone: the same cell"),
         Rule("R1", "Cow :: Owned ( name . to_owned ( ) )", "clone_vs ( name )", why="Cow<str> name"),
         Rule("R10", "ctx . get_file_module ( )", "get_file_module ( exports )", why="the executing file's module value (R10)"),
+        Rule("R10", "Rc :: new ( RefCell :: new ( Stack :: new ( ) ) )", "fresh_call_stack ( )", why="a NEW, empty call stack (R10): not the one the instruction runs on"),
     ]
     hs = {n: handler(src, log, n, extra) for n in ["call_object", "lookup", "module_entry", "load_self_export", "export_special", "ret_mod"]}
     pre = prelude("ctx.rs").replace("    Other(OtherV),                   // Vector, Object, Module, Map", "    Object(ObjV),\n    Other(OtherV),                   // Vector, Module, Map") \
@@ -1692,7 +1695,7 @@ fn main() {{}}
     obls = ctx_obls(names, ["C08"]) + [
         Obl("C08.handler.call_object", ["C08", "C01"], fn="call_object", desc="call_object: the method named last is called with the whole operand stack and with the variables of THAT object as captured variables"),
         Obl("C08.handler.lookup", ["C08", "C13"], fn="lookup", desc="lookup: the operand is replaced by a pointer to exactly the member's own cell"),
-        Obl("C11.handler.module_entry", ["C11"], fn="module_entry", desc="module_entry: a request for exactly the named module, operand stack as arguments, stack cleared"),
+        Obl("C11.handler.module_entry", ["C11", "C17"], fn="module_entry", desc="module_entry: a request for exactly the named module, operand stack as arguments, stack cleared; the module's top-level code runs on the importer's call stack (a failure while it loads is traced down to the entry module: C17)"),
         Obl("C11.handler.load_self_export", ["C11", "C08"], fn="load_self_export", desc="load_self_export: pushes the content of the exported cell of that name"),
         Obl("C11.handler.export_special", ["C11", "C10"], fn="export_special", desc="export_special: one new read-only cell with the operand's value, registered once under the export name and bound to the local name"),
         Obl("C11.handler.ret_mod", ["C11"], fn="ret_mod", desc="ret_mod: with a clean operand stack the run's value is the executing file's module value"),
@@ -1700,6 +1703,6 @@ fn main() {{}}
     return gen, obls, log
 
 
-U_OBJH = VUnit("c08_object_handlers", ["C08", "C11", "C10", "C13", "C01"], "object and module handlers: call_object, lookup, module_entry, load_self_export, export_special, ret_mod", build_object_handlers)
+U_OBJH = VUnit("c08_object_handlers", ["C08", "C11", "C10", "C13", "C01", "C17"], "object and module handlers: call_object, lookup, module_entry, load_self_export, export_special, ret_mod", build_object_handlers)
 U_OBJH.assumes = ["Primitive::lookup (c14_lookup / c08_lookup), the export table (MScriptFile::add_export / update_once) and Ctx::ref_variable are abstract callees; gc cell semantics assumed"]
 UNITS.append(U_OBJH)
